@@ -9,7 +9,7 @@
    (2) the PARSER never consumes an Error token: ParserProofs.nonEOF — what every parse function
        may consume silently — now excludes the Error type (get_next stops on it), so an accepted
        source contains no Error token, and a source whose token list contains one is rejected:
-       with a located diagnostic for a token of the stream, or the Set collator's panic. *)
+       with a located diagnostic for a token of the stream. *)
 From Coq Require Import String Ascii.
 From Verif Require Import Base Params Value Coll Lexer Literals Parser LexerProofs LexBridge ParserProofs CdcnProofs Complete StripInv LexRender.
 Close Scope string_scope.
@@ -107,39 +107,20 @@ Proof.
   - constructor; [congruence|constructor].
 Qed.
 
-(* a source whose token list holds an Error token is rejected: located, or the collator's panic *)
+(* a source whose token list holds an Error token is rejected with a located diagnostic *)
 Theorem error_token_rejected src t : In t (lex src) -> ttype_of t = TError ->
-  match parse_source fparse crank src with
-  | PValue _ => False
-  | PSyntax t' => In t' (lex src)
-  | PRuntime RCollator => exists a b, crank a b = None
-  | _ => False
-  end.
-Proof.
-  intros Hin Ht. pose proof (parse_total fparse crank src) as S.
-  destruct (parse_source fparse crank src) as [v|t'|k|] eqn:E; auto.
-  pose proof (accepted_no_error src v E) as F. rewrite Forall_forall in F. exact (F t Hin Ht).
-Qed.
-
-(* with a collator that does not panic: a located diagnostic *)
-Corollary error_token_located src t : In t (lex src) -> ttype_of t = TError ->
-  (forall a b, crank a b <> None) ->
   exists t', parse_source fparse crank src = PSyntax t' /\ In t' (lex src).
 Proof.
-  intros Hin Ht Hc. pose proof (error_token_rejected src t Hin Ht) as S.
-  destruct (parse_source fparse crank src) as [v|t'|k|]; try contradiction.
+  intros Hin Ht. pose proof (parse_total fparse crank src) as S.
+  destruct (parse_source fparse crank src) as [v|t'|k|] eqn:E; try contradiction.
+  - pose proof (accepted_no_error src v E) as F. rewrite Forall_forall in F. exfalso. exact (F t Hin Ht).
   - exists t'. auto.
-  - destruct k; try contradiction. destruct S as (a & b & E). exfalso. exact (Hc a b E).
 Qed.
 
 (* the two together: a text whose prefix is scannable in front of a dot is rejected *)
 Theorem prefix_dot_rejected ts r : scan_before (46 :: r) ts ->
-  match parse_source fparse crank (render_toks ts ++ 46 :: r) with
-  | PValue _ => False
-  | PSyntax t' => In t' (lex (render_toks ts ++ 46 :: r))
-  | PRuntime RCollator => exists a b, crank a b = None
-  | _ => False
-  end.
+  exists t', parse_source fparse crank (render_toks ts ++ 46 :: r) = PSyntax t' /\
+             In t' (lex (render_toks ts ++ 46 :: r)).
 Proof.
   intros S. apply (error_token_rejected _ (mkTok TError [46] (fst (snd (place_pre ts 1 1))) (snd (snd (place_pre ts 1 1))))); [|reflexivity].
   rewrite (lex_prefix_dot ts r S). apply in_or_app. right. left. reflexivity.
